@@ -47,6 +47,13 @@ def closure_market(rng, mid, shape, t0, event_id="30000001"):
         d.close()
     elif shape == "repeat":
         d.close(repeat=rng.randint(1, 3))
+    elif shape == "resettle":
+        # a second CLOSED update with a different result (re-settlement): the later closing book is the final one
+        d.close()
+        ks = [k for k in mf.keys if mf._runner_md(k)["status"] in ("WINNER", "LOSER")]
+        if len(ks) >= 2:
+            flip = {k: {"status": "LOSER" if mf._runner_md(k)["status"] == "WINNER" else "WINNER"} for k in ks[:2]}
+            mf.emit(d.step_time(), md_changes={"version": mf.md["version"] + 1}, runner_md=flip)
     elif shape == "reopen":
         d.close(repeat=rng.choice((0, 1)))
         # re-open with a new image, trade on, close again
@@ -65,7 +72,7 @@ def run_sim(desc, out):
     rng = simgen.mk_rng(desc["seed"], desc["idx"], 20)
     nm = rng.choice((1, 1, 2, 3, 4))
     ev = rng.random() < 0.4
-    shapes = [rng.choice(("plain", "plain", "repeat", "reopen", "no_close", "first_closed") if not desc.get("directed_first_closed") else ("first_closed",)) for _ in range(nm)]
+    shapes = [rng.choice(("plain", "plain", "repeat", "reopen", "no_close", "first_closed", "resettle") if not desc.get("directed_first_closed") else ("first_closed",)) for _ in range(nm)]
     if desc.get("directed_first_closed"):
         nm, shapes, ev = 1, ["first_closed"], False
     base = rng.randint(0, 9000) * 10
@@ -132,6 +139,18 @@ def run_sim(desc, out):
             continue
         if c["closed_after"] is not True:
             out.v("market-not-marked-closed", tags, market=m)
+        if c.get("book_pt_after") != pt:
+            out.v("market-book-is-not-the-closing-book", tags, market=m, got=c.get("book_pt_after"), expected=pt)
+        # every order carries the result of THIS closing update
+        snap = next((s_ for s_ in snaps[m] if s_["pt"] == pt and s_["status"] == "CLOSED"), None)
+        if snap is not None:
+            for k_, ss in tr.samples.items():
+                for smp in ss:
+                    if smp["phase"] == "closed" and smp["tick"] == i and smp["market"] == m:
+                        out.rule("order-result")
+                        want_status = snap["runners"].get(tuple(smp["sel"]), {}).get("status")
+                        if smp["runner_status"] != want_status:
+                            out.v("order-result-not-from-this-closing-update", dict(tags, got=smp["runner_status"], want=want_status), order=k_, market=m, pt=pt)
         lo, hi = c["seq"], c["end_seq"]
         logs = [l for l in tr.logs if lo < l["seq"] < hi]
         n_cm = sum(1 for l in logs if l["type"] == "CLEARED_MARKETS")
